@@ -390,12 +390,96 @@ func (ex *Exec) verifIntrinsic(st *PState, fn *ssa.Function, base string, args [
 			}
 		}
 		return nil, true
+	case "verifDump":
+		ex.note(fmt.Sprintf("dump %s = %v", constString(args[0]), args[1]))
+		return nil, true
 	case "verifNote":
 		ex.note(constString(args[0]))
 		return nil, true
 	case "verifIsConcrete":
 		t, ok := args[0].(*Term)
 		return ts.Bool(ok && t.IsConst()), true
+	case "verifCapAll":
+		// verifCapAll(name string, k int) uint64: k-th definition of a captured variable
+		l := ex.capAll[constString(args[0])]
+		k := int(ex.constIntArg(args[1]))
+		if k < 0 || k >= len(l) {
+			fail("verifCapAll(%s,%d): only %d definitions captured", constString(args[0]), k, len(l))
+		}
+		return l[k], true
+	case "verifCapCount":
+		return ts.Int64(int64(len(ex.capAll[constString(args[0])]))), true
+	case "verifCutOldBig", "verifCutNewBig":
+		name := constString(args[0])
+		k := int(ex.constIntArg(args[1]))
+		tab := ex.capCutOld
+		if base == "verifCutNewBig" {
+			tab = ex.capCutNew
+		}
+		if k < 0 || k >= len(tab) {
+			fail("%s(%s,%d): only %d triggers seen", base, name, k, len(tab))
+		}
+		t, ok := tab[k][name]
+		if !ok {
+			// no cut happened at this trigger (constant value): fall back to the snapshot
+			t, ok = ex.capSnaps[k][name]
+			if !ok {
+				fail("%s(%s,%d): variable not recorded at that trigger", base, name, k)
+			}
+		}
+		bt := fn.Signature.Results().At(0).Type().(*types.Pointer).Elem()
+		o := ex.alloc(st, "cutbig", bt, t)
+		return &PtrV{Obj: o}, true
+	case "verifCapSnap", "verifCutOld", "verifCutNew":
+		name := constString(args[0])
+		k := int(ex.constIntArg(args[1]))
+		var tab []map[string]*Term
+		switch base {
+		case "verifCapSnap":
+			tab = ex.capSnaps
+		case "verifCutOld":
+			tab = ex.capCutOld
+		default:
+			tab = ex.capCutNew
+		}
+		if k < 0 || k >= len(tab) {
+			fail("%s(%s,%d): only %d triggers seen", base, name, k, len(tab))
+		}
+		t, ok := tab[k][name]
+		if !ok {
+			fail("%s(%s,%d): variable not recorded at that trigger", base, name, k)
+		}
+		return t, true
+	case "verifCapFinal":
+		t, ok := ex.capFinal[constString(args[0])]
+		if !ok {
+			fail("verifCapFinal(%s): never captured", constString(args[0]))
+		}
+		return t, true
+	case "verifTriggers":
+		return ts.Int64(int64(len(ex.capSnaps))), true
+	case "verifLeafInt":
+		t, ok := ex.load(st, args[0]).(*Term)
+		if !ok {
+			fail("verifLeafInt: not an abstracted value")
+		}
+		return t, true
+	case "verifLeafBig":
+		t, ok := ex.load(st, args[0]).(*Term)
+		if !ok {
+			fail("verifLeafBig: not an abstracted value")
+		}
+		bt := fn.Signature.Results().At(0).Type().(*types.Pointer).Elem()
+		o := ex.alloc(st, "leafbig", bt, t)
+		return &PtrV{Obj: o}, true
+	case "verifBigRange":
+		// verifBigRange(name string, bits int) *big.Int : symbolic integer with |v| < 2^bits
+		bitsN := ex.constIntArg(args[1])
+		hi := new(big.Int).Sub(pow2(uint(bitsN)), bigOne)
+		v := ex.newVar(ex.uniq(constString(args[0])), SInt, new(big.Int).Neg(hi), hi)
+		bt := fn.Signature.Results().At(0).Type().(*types.Pointer).Elem()
+		o := ex.alloc(st, "bigrange", bt, v)
+		return &PtrV{Obj: o}, true
 	case "verifGhostSet":
 		ex.ghost[constString(args[0])] = args[1]
 		return nil, true
